@@ -146,7 +146,7 @@ def run(rep: C.Report) -> None:
     src = open(H).read() + "\n" + gen(quick)
     xh.check_harness(rep, H, {
             "^sp_": dict(name="Ob1 add_page key is among the titles get_page queries, for every spelling variant; later-letter case is significant", functions=["core.py:Wtp.add_page", "core.py:Wtp.get_page"], bounds=f"titles of 1..{3 if quick else 4} symbolic characters over {{a,A,_,space,b}}; namespaces Template, Module, Project (local name Wiktionary), Main"),
-        }, timeout=90 if quick else 600, src=src, batch=4, twins=False, select="^sp_")
+        }, timeout=180 if quick else 600, src=src, batch=4, twins=False, select="^sp_")
     # the history conditions only case-split in the solver and run the operations untraced (see harness): ~25 ms per history
     xh.check_harness(rep, H, {
             "^hist": dict(name="Ob2/Ob3 read-after-write and one-hop redirect on the real store", functions=["core.py:Wtp.add_page", "core.py:Wtp.get_page", "core.py:Wtp.page_exists", "core.py:Wtp.get_page_resolve_redirect"], bounds="all histories of 3 operations over 11 operation kinds x 2 titles" if quick else "all histories of 4 operations over 11 operation kinds x 2 titles, and of 5 operations over 8 kinds (add v1/v2, redirect full/bare, get, exists, resolve, main-namespace lookup) x 2 titles"),
